@@ -336,6 +336,51 @@ theorem C02_three_consecutive_failures (c : Comp) (h : Reachable c) (j : Jumper)
   rw [← e]
   exact ⟨hc.bound h3, hc.out h3⟩
 
+/-- **Accepted exactly when the rules allow it — read off the card.**  While the competition is in progress
+    (`started`), for a registered athlete who has not been re-instated for a jump-off, a cleared / failed / passed /
+    retired call is accepted **if and only if** a bar height has been set, the card shows no retirement, fewer than
+    three failures since the last clearance, and nothing but failures at the current height. -/
+theorem C02_trial_accepted_iff (c : Comp) (hr : Reachable c) (b : Nat) (t : Trial) (j : Jumper)
+    (hj : c.find b = some j) (h3 : j.roundLim = 3) (hph : c.phase = .started) :
+    (step c (.trial b t)).2 = .ok ↔
+      (c.heights ≠ [] ∧ j.card.flatten.contains .r = false ∧ trailingX j.card.flatten < 3 ∧
+        allX ((padCard j.card c.heights.length).getLast?.getD []) = true) := by
+  have hm : j ∈ c.jumpers := List.mem_of_find?_eq_some hj
+  have hf := allFlags_reachable c hr j hm
+  have hc := allConsec_reachable c hr j hm
+  have hcount := hc.count h3
+  have hout := hc.out h3
+  constructor
+  · intro h
+    obtain ⟨j', hj', _, hh, he, hd, _⟩ := C02_attempt_limit c b t h
+    rw [hj] at hj'; injection hj' with hj'; subst hj'
+    rw [he] at hout
+    refine ⟨hh, ?_, ?_, hf.openCell he hd⟩
+    · cases hrr : j.card.flatten.contains Trial.r with
+      | false => rfl
+      | true => exact absurd (hout.2 (Or.inl hrr)) (by simp)
+    · rw [← hcount]
+      apply Nat.lt_of_not_le
+      intro hge
+      exact absurd (hout.2 (Or.inr hge)) (by simp)
+  · rintro ⟨hh, hnr, hlt, hopen⟩
+    have he : j.eliminated = false := by
+      cases hel : j.eliminated with
+      | false => rfl
+      | true =>
+        rcases hout.1 hel with h | h
+        · unfold hasR at h; rw [hnr] at h; cases h
+        · omega
+    have hd : j.dismissed = false := by
+      cases hdd : j.dismissed with
+      | false => rfl
+      | true => have := hc.done h3 hdd he; rw [hopen] at this; cases this
+    have hlen := open_cell_le_trailing j.card c.heights.length hf.len hopen
+    have hl0 : c.heights.length ≠ 0 := fun e => hh (List.eq_nil_of_length_eq_zero e)
+    simp only [step, hj, trialAllowed, hph, Jumper.act, he, hd]
+    have : ¬ ((padCard j.card c.heights.length).getLast?.getD []).length + 1 > j.roundLim := by omega
+    simp [hl0, this]
+
 /-! non-vacuity: a reachable drawn competition, a reachable jump-off, a refused call (kernel-evaluated) -/
 def runOps (ops : List Op) : Comp := ops.foldl (fun c op => (step c op).1) {}
 
